@@ -1,5 +1,5 @@
 (** C07 — property theorems only. *)
-From V Require Import Base.Util Gql.Ast Peg.Peg Gen.C07_grammar_gen C07.Builder C07.Model C07.AstEq C07.Spec C07.Proofs C07.Lexical C07.Strings C07.Numbers C07.Fuel C07.Shapes C07.Render.
+From V Require Import Base.Util Gql.Ast Peg.Peg Gen.C07_grammar_gen C07.Builder C07.Model C07.AstEq C07.Spec C07.Proofs C07.Lexical C07.Strings C07.Numbers C07.Fuel C07.Shapes C07.Render C07.RenderValues C07.RenderArgs.
 From V Require Import Peg.PegShape.
 From V Require Import Peg.PegProps.
 
@@ -163,3 +163,65 @@ Theorem C07_parse_render_type : forall t pre rest file, wf_rty t = true -> follo
   /\ exists ty', build_type inp file (ty_tree t i) = BOk ty' /\ ty_erase ty' = erase_rty t.
 Proof. exact parse_render_type. Qed.
 Print Assumptions C07_parse_render_type.
+
+(** parse_render (values): every well-formed value with its trivia assignment ([rval], [wf_val] computable),
+    in any surroundings that may follow a value, is parsed to exactly the pair tree [val_tree] over exactly its
+    text, and the builder returns the value it denotes *)
+Theorem C07_parse_render_value : forall v pre rest file, wf_val v = true -> follow_val rest ->
+  let inp := pre ++ render_val v ++ rest in
+  let i := slen pre in
+  runs gql_grammar true ANon (Call R_Value) (render_val v ++ rest) i
+       (Ok (rest, (i + slen (render_val v))%N, [val_tree v i]))
+  /\ exists v', build_value inp file (val_tree v i) = BOk v' /\ val_erase v' = erase_rval v.
+Proof. exact parse_render_value. Qed.
+Print Assumptions C07_parse_render_value.
+
+(** Float lexemes of the specification are one FloatValue token, and IntValue does not match them *)
+Theorem C07_float_lex : forall ip fr ex rest sk i, wf_float ip fr ex = true -> int_follow_ok rest = true ->
+  let l := ip ++ fr ++ ex in
+  runs gql_grammar sk ANon (Call R_FloatValue) (l ++ rest) i (Ok (rest, (i + slen l)%N, [Pair R_FloatValue i (i + slen l)%N []]))
+  /\ runs gql_grammar sk ANon (Call R_IntValue) (l ++ rest) i Fail.
+Proof. exact float_lex. Qed.
+Print Assumptions C07_float_lex.
+
+(** parse_render (arguments): "(" g0 (name ga ":" gb value gc)+ ")" with the trivia assignment explicit *)
+Theorem C07_parse_render_arguments : forall g0 args pre rest file, wf_args g0 args = true ->
+  let inp := pre ++ render_args g0 args ++ rest in
+  let i := slen pre in
+  runs gql_grammar true ANon (Call R_Arguments) (render_args g0 args ++ rest) i
+       (Ok (rest, (i + slen (render_args g0 args))%N, [args_tree g0 args i]))
+  /\ exists a, build_arguments inp file (args_tree g0 args i) = BOk a /\ args_erase a = erase_args args.
+Proof. exact parse_render_arguments. Qed.
+Print Assumptions C07_parse_render_arguments.
+
+(** parse_render (one directive with arguments): "@" g name ga "(" … ")" *)
+Theorem C07_parse_render_directive_args : forall g n ga g0 args pre rest file,
+  ws g = true -> is_name n = true -> ws ga = true -> wf_args g0 args = true ->
+  let i := slen pre in
+  let t := Pair R_Directive i (i + slen (dir_text1 g n ga g0 args))%N
+             [Pair R_Name (i + 1 + slen g)%N (i + 1 + slen g + slen n)%N [];
+              args_tree g0 args (i + 1 + slen g + slen n + slen ga)%N] in
+  runs gql_grammar true ANon (Call R_Directive) (dir_text1 g n ga g0 args ++ rest) i
+       (Ok (rest, (i + slen (dir_text1 g n ga g0 args))%N, [t]))
+  /\ exists d a, build_directive_fn (pre ++ dir_text1 g n ga g0 args ++ rest) file t = BOk d
+       /\ iname (dir_name d) = n /\ dir_args d = Some a /\ args_erase a = erase_args args.
+Proof.
+  intros g n ga g0 args pre rest file Hg Hn Hga Hargs i t. split.
+  - apply directive_args_runs; assumption.
+  - apply build_directive_args.
+Qed.
+Print Assumptions C07_parse_render_directive_args.
+
+(** parse_render (one directive without arguments): "@" g name w -- the trailing trivia w belongs to the pair *)
+Theorem C07_parse_render_directive_noargs : forall g n w pre k file,
+  ws g = true -> is_name n = true -> ws w = true -> at_token k -> no_paren_next k -> (w = [] -> not_name_cont_next k) ->
+  let i := slen pre in
+  let t := Pair R_Directive i (i + slen (dir_text0 g n w))%N [Pair R_Name (i + 1 + slen g)%N (i + 1 + slen g + slen n)%N []] in
+  runs gql_grammar true ANon (Call R_Directive) (dir_text0 g n w ++ k) i (Ok (k, (i + slen (dir_text0 g n w))%N, [t]))
+  /\ exists d, build_directive_fn (pre ++ dir_text0 g n w ++ k) file t = BOk d /\ iname (dir_name d) = n /\ dir_args d = None.
+Proof.
+  intros g n w pre k file Hg Hn Hw Hk Hp Hnc i t. split.
+  - apply directive_noargs_runs; assumption.
+  - apply build_directive_noargs.
+Qed.
+Print Assumptions C07_parse_render_directive_noargs.
